@@ -856,8 +856,10 @@ class Verifier:
         if c.timeout_ms:
             self.timeout_ms = c.timeout_ms
         saved_feas = self.feas_timeout_ms
+        self.feas_rlimit = None
         if getattr(c, "feas_timeout_ms", None):
             self.feas_timeout_ms = c.feas_timeout_ms
+            self.feas_rlimit = int(c.feas_timeout_ms * float(os.environ.get("PYVC_FEAS_RLIMIT_PER_MS", "1500")))
         mod, cls, node = frontend.find_function(c.key, self.repo)
         limit = c.max_paths or self.max_paths
         try:
@@ -879,6 +881,7 @@ class Verifier:
             self.timeout_ms = saved_to
             self.nonlinear = saved_nl
             self.feas_timeout_ms = saved_feas
+            self.feas_rlimit = None
         if self.exits == 0 and not self.errors:
             self.errors.append("vacuous: no path reaches a function exit (contradictory requires?)")
         # reachability guard against vacuous proofs: every statement of the function must be executed on some path
